@@ -98,6 +98,10 @@ def gen_cases(rng, tier):
     # an APNG whose first frame (fcTL before IDAT) is smaller than the canvas: must be Err or a pixmap, never a panic
     for i in range(12 if tier == "quick" else 100):
         add([5] + apng_small_first_frame(rng))
+    # one flipped bit in a valid file: Err, or the pixels of the intact file (never another picture)
+    intact = png_bytes()
+    for i in range(400 if tier == "quick" else 6000):
+        add([11, rng.randrange(len(intact)), rng.randrange(8)] + list(intact))
     # malformed streams: random bytes, and a valid PNG truncated / bit-flipped
     valid = png_bytes()
     for i in range(n):
@@ -193,6 +197,10 @@ def oracle(suite, args, out):
         if o != exp:
             j = [i for i in range(min(len(o), len(exp))) if o[i] != exp[i]]
             return "decoded pixels differ from round(c*a/255) at byte %s: got %s expected %s" % (j[:1], o[j[0] // 4 * 4:j[0] // 4 * 4 + 4] if j else o[:4], exp[j[0] // 4 * 4:j[0] // 4 * 4 + 4] if j else exp[:4])
+        return None
+    if k == 11:
+        if o == [2]:
+            return "a PNG with bit %d of byte %d flipped decodes to a different picture instead of Err" % (args[2] % 8, args[1])
         return None
     if k == 9:
         if o == [-1]:
